@@ -455,3 +455,21 @@ def term_has(v, needle):
             st.extend(x.values())
             st.extend(x.keys())
     return False
+
+
+def inline_pure(F, max_blocks=40, depth=2):
+    """Call model: a call to a small crate-local function that has exactly one return path and no branch on its
+    arguments (a constructor such as `Disconnect::new(code)`) is replaced by its symbolic return value."""
+    def model(nm, args, t, path, _d=[0]):
+        b = F.bodies.get(nm) if F is not None else None
+        if b is None or b.is_coroutine or len(b.blocks) > max_blocks or _d[0] >= depth:
+            return None
+        _d[0] += 1
+        try:
+            ps = [p for p in SymEx(b, F, max_paths=64, call_model=model, arg_values={i + 1: a for i, a in enumerate(args)}).run() if p.end[0] == 'return']
+        finally:
+            _d[0] -= 1
+        if len(ps) == 1 and not [c for c in ps[0].conds if c[0][0] != 'assert'] and ps[0].ret is not None:
+            return ps[0].ret
+        return None
+    return model
